@@ -28,6 +28,8 @@ end of the list as the top; the normalisers of C08 (the consumer gets the compil
 
 Round 6: the operator installer is evaluated per call (installer_kinds) instead of reading flag
 names; compile_expr written as a generator (yield / yield from) is the same postfix emission.
+Round 7: operator methods handed back by the installer; the field / literal leaf told apart by
+try: field.field_name except AttributeError; the program under any local name.
 """
 import ast
 import copy
